@@ -9,7 +9,7 @@ PROP = "C09"
 
 
 def body():
-    A.aggsender_check(PROP, model_cfgs=["AggSenderC02b.cfg"], gen_cfgs=["AggSenderGenC02.cfg", "AggSenderGenC02b.cfg"], quick_n=200, thorough_n=4000, invs=["C02"], finality=True, assumptions=["precondition of C09: claims reference L1 info leaves at or below the finalized root (the driver only lets an L2 block claim against a finalized leaf)"])
+    A.aggsender_check(PROP, model_cfgs=["AggSenderC02b.cfg"], gen_cfgs=["AggSenderGenC02.cfg", "AggSenderGenC02b.cfg", "AggSenderGenFEP.cfg"], quick_n=200, thorough_n=4000, invs=["C02"], finality=True, assumptions=["precondition of C09: claims reference L1 info leaves at or below the finalized root (the driver only lets an L2 block claim against a finalized leaf)"])
 
 
 if __name__ == "__main__":
